@@ -14,6 +14,7 @@ def stateless (f : Bool → Json → Except String String) : Domain :=
 
 def domains : List (String × Domain) := [
   ("disk", stateless Driver.Disk.step),
+  ("diskwatch", stateless Driver.Disk.stepWatch),
   ("reactor", { σ := Zeno.Model.Reactor.R, init := Zeno.Model.Reactor.R.init, step := Driver.Reactor.step })
 ]
 
